@@ -33,6 +33,8 @@ structure S where
   R : Nat → Bool := fun _ => false      -- removing queue
   A : Nat → Bool := fun _ => false      -- reactivating queue
   V : Nat → Bool := fun _ => false      -- consensus validator set (what CometBFT holds)
+  claimed : Nat → Bool := fun _ => true -- a validator record exists (GetValidator finds it); false: the account may still claim
+  P : Nat → Bool := fun _ => false      -- pending queue (MsgClaimValidator accepted in this block)
 
 def upd {α} (f : Nat → α) (v : Nat) (x : α) : Nat → α := fun w => if w = v then x else f w
 
@@ -160,5 +162,52 @@ def endBlock (n : Nat) (s : S) : List (Nat × Nat) × Except CometErr S :=
   (ups, match applyUpdates n s.V ups with
         | .ok V' => .ok { s with V := V', R := fun _ => false, A := fun _ => false }
         | .error e => .error e)
+
+
+/-! ## joining the set: MsgClaimValidator, the pending queue, and its drain at the end of the block
+
+An account without a validator record is kept with the placeholder status `inactive`, outside every queue and outside
+the consensus set. `MsgClaimValidator` (permission and moniker checks are the harness's business) is refused when a
+record exists (`GetValidator(msg.ValKey)` succeeds) and otherwise stores a PENDING validator: no record yet, so every
+message about it still fails until the end of the block. `ApplyAndReturnValidatorSetUpdates` first turns every
+pending entry into a record with status Active and emits a power-1 update for its key, then drains the other queues. -/
+
+inductive OpC
+  | base (op : Op)
+  | claim (v : Nat)
+deriving Repr
+
+def subject : Op → Option Nat
+  | .msgPause v => some v | .msgUnpause v => some v | .msgActivate v _ => some v | .sig v _ _ => some v
+  | .jail v _ => some v | .unjail v _ => some v | .evidence v _ _ _ => some v | .kPause v => some v
+  | .rankReset => none
+
+/-- a message about an account without a record fails; block-level processing never names one -/
+def isMsg : Op → Bool
+  | .msgPause _ => true | .msgUnpause _ => true | .msgActivate _ _ => true | .unjail _ _ => true
+  | _ => false
+
+def stepC (p : Params) (s : S) : OpC → Option S
+  | .claim v => if s.claimed v then none else some { s with P := upd s.P v true }
+  | .base .rankReset =>
+    -- ResetWholeValidatorRank walks the validator records only
+    some { s with status := fun v => if s.claimed v then .active else s.status v, rank := fun _ => 0, streak := fun _ => 0,
+                  mischance := fun _ => 0, conf := fun _ => 0, inactiveUntil := fun _ => 0 }
+  | .base op =>
+    match subject op with
+    | some v => if s.claimed v then step p s op else if isMsg op then none else some s
+    | none => step p s op
+
+def applyC (p : Params) (s : S) (op : OpC) : S := (stepC p s op).getD s
+
+/-- one pending entry becomes a record: AddValidator (status Active), power-1 update, RemovePendingValidator -/
+def joinOne (s : S) (v : Nat) : S :=
+  if s.P v then { promote s v with claimed := upd s.claimed v true, P := upd s.P v false } else s
+
+def joinPending (n : Nat) (s : S) : S := (List.range n).foldl joinOne s
+
+/-- staking EndBlocker with the pending queue (the consensus engine sees one update list; its order is irrelevant to
+`UpdateWithChangeSet`) -/
+def endBlockC (n : Nat) (s : S) : List (Nat × Nat) × Except CometErr S := endBlock n (joinPending n s)
 
 end Sekai.Stake
